@@ -1,6 +1,6 @@
 (* C12 - every API call emits exactly the AMQP method its arguments describe.
    This file only pins statements. *)
-From Amq Require Import Lib.Base Model.ApiTable Spec.Api Proofs.Api.
+From Amq Require Import Lib.Base Model.ApiTable Spec.Api Proofs.Api Model.Method Proofs.Method.
 
 (* for EVERY operation and all argument values: where the documentation says nothing is sent (a delivery settled through another channel: panic; a second cancel) nothing is emitted; otherwise exactly ONE method is emitted and it is the one the documentation table (Spec/Api.Describes, written independently) gives for these arguments, field by field *)
 Theorem C12_emit_describes : forall o : api_op, (sends_nothing o -> emit o = None \/ emit o = Some []) /\ (~ sends_nothing o -> exists m : amqp, emit o = Some [wire m] /\ Describes o m).
@@ -30,6 +30,18 @@ Proof. exact documented_iff. Qed.
 Theorem C12_documented_none : forall o : api_op, documented o = None <-> sends_nothing o.
 Proof. exact documented_none. Qed.
 
+(* DOWN TO THE BYTES (Model/Method.v: the payload of every method amiquip's client side writes - class and method id, then the fields in the order of the AMQP 0-9-1 specification: big-endian integers, short strings with one length byte, long strings and tables with a four-byte length, consecutive bit fields packed into one octet from bit 0 upwards): what a server reads back from the bytes of a method is exactly the method that was written, for every method of the table and every field value its width can carry, with nothing left over. The check of C12 applies this reading, inside Coq, to the raw bytes the real client wrote *)
+Theorem C12_wire_roundtrip : forall (cls meth : N) (fs : list field), cls < 65536 -> meth < 65536 -> schema cls meth = Some (map type_of fs) -> Forall wf_field fs -> dec_method (enc_method cls meth fs) = Some (cls, meth, fs).
+Proof. exact dec_enc_method. Qed.
+
+(* ... hence the bytes determine the method: two different methods (another class, another method, any field different) are never written the same way *)
+Theorem C12_wire_injective : forall (c1 m1 : N) (f1 : list field) (c2 m2 : N) (f2 : list field), c1 < 65536 -> m1 < 65536 -> schema c1 m1 = Some (map type_of f1) -> Forall wf_field f1 -> c2 < 65536 -> m2 < 65536 -> schema c2 m2 = Some (map type_of f2) -> Forall wf_field f2 -> enc_method c1 m1 f1 = enc_method c2 m2 f2 -> (c1, m1, f1) = (c2, m2, f2).
+Proof. exact enc_method_injective. Qed.
+
+(* the same for any field list followed by anything else (a method's fields never swallow or leave over a byte) *)
+Theorem C12_wire_fields : forall (fs : list field) (r : list N), Forall wf_field fs -> dec_fields (map type_of fs) (enc_fields fs ++ r) = Some (fs, r).
+Proof. exact dec_enc_fields. Qed.
+
 (* non-vacuity: Exchange::bind_to_destination puts self as the SOURCE *)
 Example C12_example :
   emit (AExchangeBind BToDestination true false [97] [98] [114] 2)
@@ -44,6 +56,9 @@ Check C12_bind_direction : forall (s : bside) (n u : bool) (self other r : bytes
 Check C12_wrong_channel : forall (how : settle) (h : holder) (t : N) (r : bool), emit (ASettle how h t r false) = None.
 Check C12_documented_iff : forall (o : api_op) (m : amqp), documented o = Some m <-> Describes o m.
 Check C12_documented_none : forall o : api_op, documented o = None <-> sends_nothing o.
+Check C12_wire_roundtrip : forall (cls meth : N) (fs : list field), cls < 65536 -> meth < 65536 -> schema cls meth = Some (map type_of fs) -> Forall wf_field fs -> dec_method (enc_method cls meth fs) = Some (cls, meth, fs).
+Check C12_wire_injective : forall (c1 m1 : N) (f1 : list field) (c2 m2 : N) (f2 : list field), c1 < 65536 -> m1 < 65536 -> schema c1 m1 = Some (map type_of f1) -> Forall wf_field f1 -> c2 < 65536 -> m2 < 65536 -> schema c2 m2 = Some (map type_of f2) -> Forall wf_field f2 -> enc_method c1 m1 f1 = enc_method c2 m2 f2 -> (c1, m1, f1) = (c2, m2, f2).
+Check C12_wire_fields : forall (fs : list field) (r : list N), Forall wf_field fs -> dec_fields (map type_of fs) (enc_fields fs ++ r) = Some (fs, r).
 
 Print Assumptions C12_emit_describes.
 Print Assumptions C12_nowait_iff.
@@ -52,4 +67,7 @@ Print Assumptions C12_bind_direction.
 Print Assumptions C12_wrong_channel.
 Print Assumptions C12_documented_iff.
 Print Assumptions C12_documented_none.
+Print Assumptions C12_wire_roundtrip.
+Print Assumptions C12_wire_injective.
+Print Assumptions C12_wire_fields.
 Print Assumptions C12_example.
